@@ -656,11 +656,20 @@ func selfcheck(t *testing.T, c core.Cfg, part *core.Partial) {
 	if c.Property == "C06" && c.Mode != "race" && c.Worker == 5%int(core.EnvInt("VERIF_WORKERS", 1)) {
 		// foreign files cut down to nothing, or to white space: no format can be detected
 		k := 0
-		for _, path := range []string{"f1.yaml", "f1.json", "f1.proto", "f1.dat", "f1.yml"} {
-			for _, text := range []string{"", "\n\n  \n", " "} {
+		for _, path := range []string{"f1.yaml", "f1.json", "f1.proto", "f1.dat", "f1.yml", "f1.yaml ~swagger", "f1.json ~swagger", "f1.yaml ~openapi3"} {
+			// (with a mode hint after the name: the hint says what the author expects, not what the file is)
+			mode := ""
+			if i := strings.Index(path, " ~"); i >= 0 {
+				path, mode = path[:i], path[i+2:]
+			}
+			texts := []string{"", "\n\n  \n", " "}
+			if mode != "" {
+				texts = append(texts, "foo: bar\n", "{}\n", "{\"a\": {\"b\": 1}}\n")
+			}
+			for _, text := range texts {
 				k++
 				w := &Workload{Family: "plain", Template: fmt.Sprintf("selfcheck-blank-foreign-%d", k), Files: []*FileSpec{
-					{ID: 0, Path: "f0.sysl", Kind: "sysl", Imports: []ImportSpec{{To: 1, Spell: path, As: foreignAs(1)}, {To: 2, Spell: "f2"}}},
+					{ID: 0, Path: "f0.sysl", Kind: "sysl", Imports: []ImportSpec{{To: 1, Spell: path, As: foreignAs(1), Mode: mode}, {To: 2, Spell: "f2"}}},
 					{ID: 1, Path: path, Kind: "dat"},
 					{ID: 2, Path: "f2.sysl", Kind: "sysl"}}}
 				for _, f := range w.Files {
